@@ -78,7 +78,7 @@ Record client := mkC {
   c_now : Z;                (* virtual clock, seconds *)
   c_T : Z;                  (* peer_timeout *)
   c_delivered : nat;        (* number of successful _response_fut.set_result calls *)
-  c_unk : bool              (* download_blob's length_unknown: blob.length was None when this download started *)
+  c_unk : bool              (* ghost, not in the code: blob.length was None when this download started *)
 }.
 
 Definition set_open v c := mkC v (c_lost c) (c_closed_ev c) (c_att c) (c_fut c) (c_received c) (c_buf c) (c_has_w c) (c_w c) (c_hash c) (c_len c) (c_verified c) (c_phase c) (c_now c) (c_T c) (c_delivered c) (c_unk c).
@@ -287,10 +287,8 @@ Definition run_callbacks (c : client) : client :=
 Definition finish (res : dlres) (c : client) : client :=
   (* download_blob's finally: close the writer handle if still open *)
   let c1 := if c_has_w c && negb (w_closed (c_w c)) then set_has_w false (set_w (close_handle (c_w c)) c) else c in
-  (* ... then: a length learned from a peer that did not deliver the blob is forgotten *)
-  let c2 := if c_unk c1 && (match c_verified c1 with None => true | Some _ => false end) && w_closed (c_w c1)
-            then set_len None c1 else c1 in
-  set_phase (PhDone res) c2.
+  (* blob.length is NOT touched: a length learned from a peer stays in the shared blob (known finding race-length-poison) *)
+  set_phase (PhDone res) c1.
 
 (* the coroutine runs until it has to wait again *)
 Definition co_await_fin (c : client) : client :=
